@@ -42,6 +42,7 @@ from .common import (
     KafkaError,
     KafkaUnavailableError,
     LeaderUnavailableError,
+    NoResponseError,
     NotCoordinator,
     NotLeaderForPartitionError,
     PartitionUnavailableError,
@@ -1359,6 +1360,13 @@ class KafkaClient(object):
             # Successful request/response. Decode it and store by topic/part
             for r in decode_fn(response):
                 acc[(r.topic, r.partition)] = r
+            # A reply which leaves out a payload of its request is no reply
+            # to that payload: the caller hears about it as a failed payload
+            unanswered = [p for p in payloads if (p.topic, p.partition) not in acc]
+            if unanswered:
+                log.warning("%r: reply to request:%r leaves out payloads:%r", self, payloads, unanswered)
+                no_response = Failure(NoResponseError("No response for payload"))
+                failed_payloads.extend([(p, no_response) for p in unanswered])
 
         # Order the accumulated responses by the original key order
         # Note that this scheme will throw away responses which we did
